@@ -50,6 +50,46 @@ class MathHooks(AwsHooks):
         return Poly.atom(flag)
 
 
+def _div_guard(f, blk, pair, dom):
+    """is block blk reached only under `pair[0] % pair[1] == 0` (tested directly, negated, or through a local holding it)?"""
+    class _E:
+        pass
+    ev_ = _E()
+    ev_.blk = blk
+    for c_, p_, b_ in RU.guards(f, ev_, dom):
+        t = RU.cmp_norm(f, c_, p_)
+        if not (t and t[1] == "==" and (t[2] is None or f.is_const(t[2]) == 0)):
+            continue
+        x = RU.uncast(f, t[0])
+        srcs = [x]
+        if x is not None and x["k"] == "var":
+            for e2 in f.all_events():
+                if e2.kind == "decl":
+                    for v in e2.node["vars"]:
+                        if v["n"] == x["n"] and v.get("init") is not None:
+                            srcs.append(RU.uncast(f, v["init"]))
+        for s_ in srcs:
+            if s_ is not None and s_["k"] == "bin" and s_["op"] == "%":
+                o2 = [RU.uncast(f, a) for a in s_["a"]]
+                if all(o is not None and o["k"] == "var" for o in o2) and (o2[0]["n"], o2[1]["n"]) == pair:
+                    return True
+    return False
+
+
+def _lt_guard(f, ev, lo, hi, dom):
+    """is ev reached only under lo < hi (written either way round, or as a negated >=)?"""
+    for c_, p_, b_ in RU.guards(f, ev, dom):
+        t = RU.cmp_norm(f, c_, p_)
+        if not t or t[2] is None:
+            continue
+        l, r = RU.uncast(f, t[0]), RU.uncast(f, t[2])
+        if l is None or r is None or l["k"] != "var" or r["k"] != "var":
+            continue
+        if (t[1] == "<" and (l["n"], r["n"]) == (lo, hi)) or (t[1] == ">" and (l["n"], r["n"]) == (hi, lo)):
+            return True
+    return False
+
+
 def spec_check(R, P, f, op, kind, rule, tag, hooks=None, allow_undecided=False):
     """verify one helper against its specification on every return state"""
     hooks = hooks or MathHooks()
@@ -410,29 +450,7 @@ def convert(R, P):
             continue
         pair = (ops[0]["n"], ops[1]["n"])
         blk = num.elem_of.get(nd["id"], (None,))[0]
-        okg = False
-
-        class _E:
-            pass
-        ev_ = _E()
-        ev_.blk = blk
-        for c_, p_, b_ in RU.guards(f, ev_, dom):
-            t = RU.cmp_norm(f, c_, p_)
-            if not (t and t[1] == "==" and (t[2] is None or f.is_const(t[2]) == 0)):
-                continue
-            x = RU.uncast(f, t[0])
-            srcs = [x]
-            if x is not None and x["k"] == "var":
-                for e2 in f.all_events():
-                    if e2.kind == "decl":
-                        for v in e2.node["vars"]:
-                            if v["n"] == x["n"] and v.get("init") is not None:
-                                srcs.append(RU.uncast(f, v["init"]))
-            for s_ in srcs:
-                if s_ is not None and s_["k"] == "bin" and s_["op"] == "%":
-                    o2 = [RU.uncast(f, a) for a in s_["a"]]
-                    if all(o is not None and o["k"] == "var" for o in o2) and (o2[0]["n"], o2[1]["n"]) == pair:
-                        okg = True
+        okg = _div_guard(f, blk, pair, dom)
         R.check(okg, "CONVERT", "frequency-ratio-only-when-exact:%s/%s" % pair, "include/aws/common/clock.inl:%d" % nd.get("loc", [0])[0], "`%s / %s` is computed only under `%s %% %s == 0`" % (pair + pair),
                 "`%s / %s` is computed without the divisibility test of that pair: for frequencies that are not multiples of each other the truncated ratio is applied to the ticks (2999999 ticks at 3 MHz convert to 998999667 ns instead of 999999666)" % pair)
     R.check(okd, "CONVERT", "frequencies-asserted-before-division", "%s()" % f.name, "both frequencies are asserted non-zero before any division (%d divisions)" % len(divs),
@@ -443,7 +461,7 @@ def convert(R, P):
     for e in st_rem:
         g = [f.show(f.d(c)) + ("" if p else " [false]") for c, p, b in RU.guards(f, e, dom)]
         gs.append(g)
-    ok = ok and any(any("new_frequency < old_frequency" in x and "false" not in x for x in g) and any("frequency_remainder == 0" in x and "false" not in x for x in g) for g in gs)
+    ok = ok and any(_lt_guard(f, e, "new_frequency", "old_frequency", dom) and _div_guard(f, e.blk, ("old_frequency", "new_frequency"), dom) for e in st_rem)
     # every return has passed the `remainder != NULL` block: no fast path leaves *remainder unwritten
     rt = [b.id for b in f.blocks.values() if b.cond is not None and f.show(RU.uncast(f, (RU.cmp_norm(f, b.cond, True) or (None,))[0]) if RU.cmp_norm(f, b.cond, True) else None) == "remainder"]
     okr = bool(rt) and all(rt[0] in dom.get(r_.blk, ()) for r_ in f.returns())
